@@ -24,6 +24,7 @@ CONSTANTS
   SplitOnlyAtEnqueue = FALSE
   DropOnClose = FALSE
   WriteErrorEndsReader = TRUE
+  AckOvertakes = FALSE
   ForwardInitWin = FALSE
   WithSettings = TRUE
 INVARIANTS ReaderAlive
